@@ -1,7 +1,8 @@
 (* C15 — Client bounds its peers, survives failed rendezvous, always shuts down.
    Models: coq/Model/Peers.v (interleaving machine; V0 = pinned code, V1 = code with
    proposed-fixes/C15-end-once.diff and C15-collect-send-select-melt.diff) and
-   coq/Model/Connect.v (CV0 pinned, CV1 = with C15-nil-pc.diff).
+   coq/Model/Connect.v (CV0 pinned, CV1 = with C15-nil-pc.diff); coq/Model/PeerLife.v (last part of this file) puts
+   the life cycle of a WebRTCPeer - Close as two steps, peers quiet for longer than SnowflakeTimeout - on top of Peers.v.
    `reachable v max s`: s is reached from `init max` by ANY finite interleaving of Collect steps,
    any number of Pop and End callers, and peers closing on their own (unbounded).
 
@@ -380,3 +381,8 @@ Example C15_ex_quiet_peer : exists s s', lrun V1 FlagFirst (linit 1) trace_quiet
   quiet s 0 = true /\ begun s 0 = false /\ melted (lp s) = false /\ In 0 (active (lp s)) /\
   lstep V1 FlagFirst s (LL_P Col_check) = Some s' /\ col (lp s') = C_Unlock R_AtCap.
 Proof. exact quiet_example. Qed.
+
+Example C15_ex_end_during_teardown : exists s, lrun V1 FlagFirst (linit 2) trace_end_life = Some s /\ lreachable V1 FlagFirst 2 s /\
+  nth_error (ends (lp s)) 0 = Some E_Done /\ next_peer (lp s) = 2 /\
+  begun s 0 = true /\ torn s 0 = false /\ begun s 1 = true /\ torn s 1 = true.
+Proof. exact end_life_example. Qed.
